@@ -100,7 +100,7 @@ def maplocal2(P):
     return _maplocal(2, P)
 
 
-@lemma(_zone_args(3, {"td": int, "tn": int}), budget=400, per_path=30, tiers=("thorough",),
+@lemma(_zone_args(3, {"td": int, "tn": int}), budget=400, per_path=30,
        bounds="every zone of 3 intervals x every instant: rendering the instant in the zone and mapping the local value back recovers the "
               "instant's own interval among the results")
 def inverse3(d1, n1, d2, n2, o0, o1, o2, td, tn):
@@ -197,7 +197,7 @@ def resolvers2(PC):
     return h
 
 
-@lemma(_zone_args(2, {"ld": int}), params=["midnight-before", "midnight-after", "skipped"], budget=400, per_path=30, tiers=("thorough",),
+@lemma(_zone_args(2, {"ld": int}), params=["midnight-before", "midnight-after", "skipped"], budget=400, per_path=30,
        bounds="every zone of 2 intervals x every date (partitioned by how midnight relates to the transition): at_start_of_day is the "
               "earliest instant whose local date is that date, SkippedTimeError when the whole day is skipped")
 def startofday2(P):
